@@ -1,0 +1,12 @@
+//go:build verif
+
+package dcache
+
+// VerifEntries returns a copy of the name cache (build tag verif).
+func (dc *Dcache) VerifEntries() map[string]Dentry {
+	r := make(map[string]Dentry)
+	for k, v := range dc.cache {
+		r[k] = v
+	}
+	return r
+}
